@@ -377,7 +377,7 @@ fn run_family(ctx: &Ctx, sub: &str, f: &Family, limit: usize, cpu_factor: f64, p
 }
 
 pub fn run(ctx: &Ctx) {
-    ctx.set_rule("input families f(n) = header ++ prefix ++ n x (open^depth ++ unit ++ close^depth) ++ suffix: 18 fixed families (nested collections up to depth 120 repeated, with/without member names, unclosed, multi-valued; wide sets; sets of collections; many attributes distinct/same name; many groups; many members; maximal 65535-octet values; long names) each also cut at 60 %, plus proptest-generated families (unit = 1-4 generated tokens with generated name/value lengths and numbered names, depth 0-120, inside or outside a collection, closed or not, cut or not). Each family is parsed at sizes 8 KiB x 2^i up to 256 KiB (quick) / 1 MiB (thorough; 4 MiB for three families) - every parse is one evaluation - under a counting global allocator: bytes requested <= 1024/input byte + 256 KiB, peak live <= 512/input byte + 256 KiB, and per doubling (pairs above 16 KiB, unit <= 1/4 of the input) bytes / calls / peak grow by <= x2.6 (+256 KiB); CPU backstop: thread CPU time per byte at the largest size <= x16 (quick) / x40 (thorough) the per-byte time at 8 KiB (best of repetitions, re-measured before reporting). Sizes are escalated only while the family is within bounds. Non-trivial = family reaches >= 64 KiB and the parser consumed the whole input; distinct by family descriptor.");
+    ctx.set_rule("input families f(n) = header ++ prefix ++ n x (open^depth ++ unit ++ close^depth) ++ suffix: 18 fixed families (nested collections up to depth 120 repeated, with/without member names, unclosed, multi-valued; wide sets; sets of collections; many attributes distinct/same name; many groups; many members; maximal 65535-octet values; long names) each also cut at 60 %, plus proptest-generated families (unit = 1-4 generated tokens with generated name/value lengths and numbered names, depth 0-120, inside or outside a collection, closed or not, cut or not). Each family is parsed at sizes 8 KiB x 2^i up to 256 KiB (quick) / 1 MiB (thorough; 4 MiB for three families) - every parse is one evaluation - under a counting global allocator: bytes requested <= 1024/input byte + 256 KiB, peak live <= 512/input byte + 256 KiB, and per doubling (pairs above 16 KiB, unit <= 1/4 of the input) bytes / calls / peak grow by <= x2.6 (+256 KiB); fragmentation invariance: under one-byte reads the CPU time per input byte for 65535-octet values is <= x6 that for 500-octet values (both parsers); CPU backstop: thread CPU time per byte at the largest size <= x16 (quick) / x40 (thorough) the per-byte time at 8 KiB (best of repetitions, re-measured before reporting). Sizes are escalated only while the family is within bounds. Non-trivial = family reaches >= 64 KiB and the parser consumed the whole input; distinct by family descriptor.");
     ctx.assume("CPU cost without allocation is only bounded by the coarse per-byte backstop (timing is too noisy for a tight ratio test)");
     let limit = ctx.tier.pick(256 << 10, 1 << 20);
     let cpu_factor = ctx.tier.pick(16.0, 40.0);
@@ -415,6 +415,46 @@ pub fn run(ctx: &Ctx) {
             }
         }
     }
+    // fragmentation invariance: under one-byte reads the work per input byte must not depend on how long
+    // the individual names/values are (a per-read pass over the whole value buffer shows up as a factor
+    // ~ value length). Same total size, 65535-octet values vs 500-octet values, both parsers.
+    {
+        use vcore::sched::{Schedule, Scripted};
+        let big = fam("trickle/65535-octet values", &[0x01], &[], 0, &[&[0x41u8, 0, 7, b'v'][..], b"######", &[0xff, 0xff], &vec![b'x'; 65535][..]].concat(), &[], &[], false);
+        let small = fam("trickle/500-octet values", &[0x01], &[], 0, &[&[0x41u8, 0, 7, b'v'][..], b"######", &[0x01, 0xf4], &vec![b'x'; 500][..]].concat(), &[], &[], false);
+        let size = ctx.tier.pick(512 << 10, 2 << 20);
+        let run = |f: &Family, is_async: bool| -> f64 {
+            let input = f.input((size / f.unit_len()).max(1));
+            let mut best = f64::MAX;
+            for _ in 0..3 {
+                let (src, c) = Scripted::new(input.clone(), Schedule::uniform(input.len(), 1), None);
+                let t0 = thread_cpu_ns();
+                if is_async {
+                    let _ = catch(move || vcore::sched::drive(async move { ipp::parser::AsyncIppParser::new(ipp::reader::AsyncIppReader::new(src)).parse().await.is_ok() }, &[&c], usize::MAX));
+                } else {
+                    let _ = catch(move || IppParser::new(IppReader::new(src)).parse().is_ok());
+                }
+                best = best.min((thread_cpu_ns() - t0) as f64 / input.len() as f64);
+            }
+            best
+        };
+        for is_async in [false, true] {
+            let which = if is_async { "async" } else { "blocking" };
+            let (mut b, mut s) = (run(&big, is_async), run(&small, is_async));
+            ctx.evals_add(6);
+            ctx.nontrivial(hash64(&("trickle", is_async)));
+            if b > 6.0 * s.max(1.0) {
+                // re-measure before believing a timing signal
+                b = b.min(run(&big, is_async));
+                s = s.max(run(&small, is_async));
+            }
+            ctx.extra(&format!("fragmentation invariance ({which}, one-byte reads)"), json!({"cpu_ns_per_input_byte": {"65535-octet values": (b * 10.0).round() / 10.0, "500-octet values": (s * 10.0).round() / 10.0}}));
+            if b > 6.0 * s.max(1.0) {
+                let f = Fail::new("C15/cpu-depends-on-value-length-under-fragmentation", format!("{which} parser, source delivering one byte per read: {b:.1} ns of CPU per input byte for 65535-octet values vs {s:.1} ns for 500-octet values (same total size {size}); linear cost keeps these equal"));
+                ctx.failure("fragmentation-invariance", &f, json!({"trickle": true, "async": is_async}));
+            }
+        }
+    }
     if ctx.tier == Tier::Thorough {
         for f in fixed_families().into_iter().filter(|f| ["nested collections (members), depth 120, repeated", "wide set", "many attributes, distinct names"].contains(&f.name.as_str())) {
             if let Err(fail) = run_family(ctx, "fixed-4MiB", &f, 4 << 20, cpu_factor, &probe) {
@@ -427,6 +467,10 @@ pub fn run(ctx: &Ctx) {
 }
 
 pub fn replay(ctx: &Ctx, sub: &str, case: &Value) -> Judge {
+    if case.get("trickle").is_some() {
+        println!("the fragmentation-invariance relation is a timing comparison; re-run ./check C15 quick to re-judge it");
+        return Ok(());
+    }
     let f = Family::from_json(case).ok_or_else(|| Fail::new("bad-replay", "family"))?;
     if sub == "depth-invariance" {
         // the same material at depth 3 and at the recorded depth, equal input size
